@@ -49,7 +49,19 @@ def empty_via_history(h, init, signed, n, f, **cfg):
     return x
 
 
-def mk(codes, signed, n, f, **cfg):
+def _dirty(x, h, signed, n):
+    """histories 1 and 3 leave the operand with raised overflow and underflow flags (sticky, C04): out-of-range codes were
+    stored into it before the codes under test. A result must never inherit them (only inaccuracy propagates)."""
+    x.reset()
+    if h in (1, 3):
+        hi = (1 << (n - 1)) - 1 if signed else (1 << n) - 1
+        lo = -(1 << (n - 1)) if signed else 0
+        x.set_val(hi + 5, raw=True)
+        x.set_val(lo - 5, raw=True)
+        assert x.status['overflow'] and x.status['underflow']
+
+
+def mk(codes, signed, n, f, dirty_ok=False, **cfg):
     """Fxp holding exactly these codes (scalar when one code, 1-D array otherwise; '2d:' handled by caller).
     Small-word operands are reached through a content-determined history (see empty_via_history)."""
     h = hist_of(n, f, int(signed), len(codes), *[c % 97 for c in codes[:4]]) if n <= 60 else 0
@@ -57,16 +69,16 @@ def mk(codes, signed, n, f, **cfg):
         if h == 0:
             return Fxp(codes[0], signed, n, f, raw=True, **cfg)
         x = empty_via_history(h, None, signed, n, f, **cfg)
+        _dirty(x, h if dirty_ok else 0, signed, n)
         x.set_val(codes[0], raw=True)
-        x.reset()
         return x
     n_obj = n >= 64 or any(abs(c) >= 2 ** 63 for c in codes)
     arr = np.array(codes, dtype=object) if n_obj else np.array(codes, dtype=np.int64)
     if h == 0:
         return Fxp(arr, signed, n, f, raw=True, **cfg)
     x = empty_via_history(h, np.zeros(len(codes), dtype=int), signed, n, f, **cfg)
+    _dirty(x, h if dirty_ok else 0, signed, n)
     x.set_val(arr, raw=True)
-    x.reset()
     return x
 
 
@@ -92,8 +104,8 @@ def exec_AR(t):
     b = [int(c) for c in parse_list(t[13])]
     r2, o2 = other_mode(r, o)
     try:
-        x = mk(a, sx, nx, fx, rounding=r, overflow=o, op_sizing=pol, op_method=meth)
-        y = mk(b, sy, ny, fy, rounding=r2, overflow=o2, op_sizing='optimal' if pol != 'optimal' else 'same', op_method='raw' if meth != 'raw' else 'repr')
+        x = mk(a, sx, nx, fx, rounding=r, overflow=o, op_sizing=pol, op_method=meth, dirty_ok=True)
+        y = mk(b, sy, ny, fy, rounding=r2, overflow=o2, op_sizing='optimal' if pol != 'optimal' else 'same', op_method='raw' if meth != 'raw' else 'repr', dirty_ok=True)
         if route == 'operator':
             z = OPER[op](x, y)
         elif route == 'function':
@@ -121,12 +133,12 @@ def exec_AO(t):
         tgt = Fxp(None, st, nt, ft, rounding=r, overflow=o)
         if route == 'config':
             kw = {'op_out': tgt} if kind == 'out' else {'op_out_like': tgt}
-            x = mk(a, sx, nx, fx, rounding=r2, overflow=o2, op_method=meth, **kw)
-            y = mk(b, sy, ny, fy, rounding=r2, overflow=o2)
+            x = mk(a, sx, nx, fx, rounding=r2, overflow=o2, op_method=meth, dirty_ok=True, **kw)
+            y = mk(b, sy, ny, fy, rounding=r2, overflow=o2, dirty_ok=True)
             z = OPER[op](x, y)
         else:
-            x = mk(a, sx, nx, fx, rounding=r2, overflow=o2)
-            y = mk(b, sy, ny, fy, rounding=r2, overflow=o2)
+            x = mk(a, sx, nx, fx, rounding=r2, overflow=o2, dirty_ok=True)
+            y = mk(b, sy, ny, fy, rounding=r2, overflow=o2, dirty_ok=True)
             kw = {'out': tgt} if kind == 'out' else {'out_like': tgt}
             z = FUNCS[op](x, y, method=meth, **kw)
         if kind == 'out' and z is not tgt:
@@ -166,7 +178,7 @@ def exec_AC(t):
     cv = int(c) if c.denominator == 1 else to_float(c)
     try:
         x = mk(a, sx, nx, fx, rounding=r, overflow=o, op_input_size=insize, const_op_sizing=csz, op_method=meth,
-               op_sizing='optimal' if csz != 'optimal' else 'same')
+               op_sizing='optimal' if csz != 'optimal' else 'same', dirty_ok=True)
         z = OPER[op](x, cv) if side == 'l' else OPER[op](cv, x)
     except Exception as e:
         return [exc_token(e)]
@@ -182,8 +194,8 @@ def exec_DV(t):
     b = [int(c) for c in parse_list(t[12])]
     r2, o2 = other_mode(r, o)
     try:
-        x = mk(a, sx, nx, fx, rounding=r, overflow=o, op_method=meth)
-        y = mk(b, sy, ny, fy, rounding=r2, overflow=o2, op_method='raw' if meth != 'raw' else 'repr')
+        x = mk(a, sx, nx, fx, rounding=r, overflow=o, op_method=meth, dirty_ok=True)
+        y = mk(b, sy, ny, fy, rounding=r2, overflow=o2, op_method='raw' if meth != 'raw' else 'repr', dirty_ok=True)
         if route == 'operator':
             z = OPER[op](x, y)
         elif route == 'function':
@@ -208,7 +220,7 @@ def exec_EXPR(t):
             a = build(); b = build()
             return a + b if k == '+' else a - b if k == '-' else a * b
         _, s, n, f, c = k.split(':')
-        return mk([int(c)], s == 's', int(n), int(f), rounding=r, overflow=o)
+        return mk([int(c)], s == 's', int(n), int(f), dirty_ok=True, rounding=r, overflow=o)
     try:
         z = build()
         assert not toks
